@@ -150,8 +150,9 @@ def run(tier: str, seed: int) -> int:
         plans = [(3, 2, ["R", "C", "Q", "Ra"], False, True, False), (2, 1, ["R", "Ru", "Ca"], False, True, False), (2, 1, ["R", "Ca", "Tlm", "TlmRC", "Tlmt"], False, True, True),
                  (2, 2, ["R", "C"], True, True, False), (2, 1, ["R", "Rdash", "Rsp"], False, False, False)]
     else:
-        plans = [(4, 3, ["R", "C", "Q", "Ra"], False, True, False), (3, 2, ["R", "Ru", "Ca", "Qf"], False, True, False), (3, 2, ["R", "Ca", "Tlm", "TlmRC", "TlmTlm", "Tlmt"], False, True, True),
-                 (3, 3, ["R", "C"], True, True, False), (3, 1, ["R", "C", "Rdash", "Rsp"], False, True, False)]
+        plans = [(4, 2, ["R", "C", "Ra"], False, False, False), (3, 3, ["R", "C", "Q", "Ra"], False, True, False),
+                 (3, 2, ["R", "Ru", "Ca", "Qf"], False, True, False), (2, 2, ["R", "Ca", "Tlm", "TlmRC", "TlmTlm", "Tlmt"], False, True, True),
+                 (3, 2, ["R", "C"], True, True, False), (3, 1, ["R", "C", "Rdash", "Rsp"], False, True, False)]
     for leaves, depth, kinds, degenerate, drawing, containers in plans:
         res = run_tlc("Circuit", cfg_text(leaves, depth, kinds, degenerate), dump=True, timeout=7200, heap="24g")
         try:
